@@ -193,6 +193,24 @@ def cls_langs():
         assoc('Uses', 'Hh', 'users', '*', '*', 'used', 'Ss'),
         assoc('Uses', 'Ss', 'clients', '*', '0..1', 'server', 'Hh'),
     ], lang_id='org.verif.cls5')
+    # the same name between the same two types in the same direction: only the field names differ
+    # (one pair between different types, one pair on a single type)
+    out['samepair'] = spec([
+        asset('Host', steps=[step('access', 'or', reaches=[COL(F('primary'), S('use')), COL(F('backups'), S('wipe'))])]),
+        asset('Disk', steps=[step('use', 'or', reaches=[COL(F('primaryHost'), S('access')), COL(F('mirrors'), S('use'))]),
+                             step('wipe', 'or', reaches=[COL(F('backupHost'), S('access')), COL(F('after'), S('wipe'))])]),
+        asset('Ssd', sup='Disk'),
+    ], [
+        assoc('Storage', 'Host', 'primaryHost', '0..1', '1', 'primary', 'Disk'),
+        assoc('Storage', 'Host', 'backupHost', '0..1', '*', 'backups', 'Disk'),
+        assoc('Storage', 'Disk', 'mirrorOf', '*', '*', 'mirrors', 'Disk'),
+        assoc('Storage', 'Disk', 'before', '0..1', '0..1', 'after', 'Disk'),
+    ], lang_id='org.verif.cls6')
+    # a language that declares no association at all
+    out['noassoc'] = spec([
+        asset('Aa', steps=[step('go', 'or', reaches=[S('end')]), step('end', 'and'), step('dd', 'defense', ttc=fn('Enabled'), reaches=[S('end')])]),
+        asset('Bb', sup='Aa', steps=[step('go', 'or', reaches=[S('go')], overrides=False)]),
+    ], [], lang_id='org.verif.cls7')
     return out
 
 
